@@ -29,6 +29,26 @@ func hitBound() { atomic.AddInt64(&boundsHit, 1) }
 func (e *Ex) runConfirmed() core.Result {
 	before := atomic.LoadInt64(&boundsHit)
 	res := e.runScenario()
+	if res.Fail != "" && e.conn["to"] != "" && confirmations < 3 {
+		// the scenario sets the proxy's own idle timeout short and lives on the margin between it and the
+		// scripted latencies: the bounds cannot be scaled without changing the scenario, so it has to
+		// fail three times out of three
+		core.Count("reconfirm:tight-timeout-scenario-rerun")
+		for i := 0; i < 2; i++ {
+			e2 := New()
+			for _, op := range e.ops {
+				e2.Do(op)
+			}
+			res = e2.runScenario()
+			e2.Close()
+			if res.Fail == "" {
+				core.Count("reconfirm:tight-timeout-scenario-not-reproduced")
+				return res
+			}
+		}
+		confirmations++
+		return res
+	}
 	if res.Fail == "" || atomic.LoadInt64(&boundsHit) == before || confirmations >= 3 {
 		return res
 	}
